@@ -21,7 +21,7 @@ ANCHORS = ["npdataclasses.py::NpDataClass._assert_same_lens", "npdataclasses.py:
            "npdataclasses.py::NpDataClass.__iter__", "npdataclasses.py::NpDataClass.__array_function__", "npdataclasses.py::npdataclass.FinalClass.__eq__",
            "npdataclasses.py::NpDataClass.astype", "npdataclasses.py::VarLenArray.__array_function__", "npdataclasses.py::NpDataClass.__len__"]
 OPS = ["len", "badlen", "idx", "iter", "concat", "eq", "astype", "vla", "inherit"]
-FLOOR_TAGS = ["op:" + o for o in OPS] + ["idx:int", "idx:slice", "idx:list", "idx:mask", "idx:boollist", "idx:emptylist", "len:0", "fields:1", "fields:4",
+FLOOR_TAGS = ["op:" + o for o in OPS] + ["idx:int", "idx:slice", "idx:list", "idx:mask", "idx:boollist", "idx:emptylist", "idx:range", "len:0", "fields:1", "fields:4",
                                          "astype:reordered", "astype:same-order", "eq:same", "eq:cell-differs", "eq:length-differs", "eq:shape-differs", "eq:length-differs-same-size", "field:2d", "field:float", "badlen:first", "badlen:other", "vla:fortran", "inherit:badlen", "inherit:eq", "inherit:idx"]
 FLOOR_MONITORS = ["c18:compare", "c18:aligned"]
 FP_STRICT = True       # a floating-point event inside the library that the dense computation does not have is a violation (shard.FpMonitor)
@@ -202,8 +202,8 @@ def run(case):
         idx = case["idx"]
         ik = case["ikind"]
         tags.append("idx:" + ik)
-        real = np.array(idx, dtype=bool) if ik == "mask" else idx
-        sel = np.array(idx, dtype=bool) if ik in ("mask", "boollist") else (np.array(idx, dtype=np.int64) if ik in ("list", "emptylist") else idx)
+        real = np.array(idx, dtype=bool) if ik == "mask" else (range(*idx) if ik == "range" else idx)
+        sel = np.array(idx, dtype=bool) if ik in ("mask", "boollist") else (np.array(idx, dtype=np.int64) if ik in ("list", "emptylist") else (np.array(list(range(*idx)), dtype=np.int64) if ik == "range" else idx))
         exp = [f[sel] for f in fs]
         a = attempt(lambda: o[real])
         what = "obj[%s] (%s)" % (short(idx, 80), ik)
@@ -326,12 +326,21 @@ def gen_case(rng, tier, op=None, k=None, L=None):
             c["kinds"] = kinds = kinds + ["1d"]
         c.update(which=rng.randrange(len(kinds)), delta=rng.choice([1, 2, -1]) if L > 0 else rng.choice([1, 2]))
     elif op == "idx":
-        ik = rng.choice(["int", "slice", "list", "mask", "boollist", "emptylist"])
+        ik = rng.choice(["int", "slice", "list", "mask", "boollist", "emptylist", "range"])
         if ik == "int" and L == 0:
             ik = "slice"
         c["ikind"] = ik
         if ik == "int":
             c["idx"] = rng.randint(-L, L - 1)
+        elif ik == "range":
+            # a python range as the selector (numpy treats it like the list of its members; negative members count from the end)
+            if L == 0:
+                c["ikind"], c["idx"] = "emptylist", []
+            else:
+                a_ = rng.randint(-L, L - 1)
+                st_ = rng.choice([1, 1, 2, -1])
+                b_ = rng.randint(a_, L) if st_ > 0 else rng.randint(-L - 1, a_)
+                c["idx"] = [a_, b_, st_]
         elif ik == "slice":
             c["idx"] = gen.gen_slice(rng, L)
         elif ik == "list":
@@ -369,6 +378,13 @@ def directed():
                     yield gen_case(rng, "quick", op, k, L)
     for _ in range(10):
         yield gen_case(rng, "quick", "vla")
+    # very long tables: one field longer / shorter by a single entry must still be refused
+    for L_ in (100000, 250000):
+        for d_ in (1, -1, 2):
+            for w_ in (0, 1):
+                yield {"op": "badlen", "kinds": ["1d", "1d"], "L": L_, "which": w_, "delta": d_}
+    for r_ in ([-2, 0, 1], [-1, 2, 1], [-5, 0, 1], [0, 3, 1], [4, -1, -1], [-1, -6, -1], [-3, 2, 2]):
+        yield {"op": "idx", "kinds": ["1d", "2d"], "L": 5, "ikind": "range", "idx": r_}
     yield {"op": "astype", "kinds": ["1d", "f", "2d"], "L": 4, "order": [2, 0]}
     yield {"op": "astype", "kinds": ["1d", "1d"], "L": 3, "order": [1, 0]}
     yield {"op": "astype", "kinds": ["1d", "1d", "1d"], "L": 3, "order": [0, 2]}
